@@ -111,6 +111,9 @@ void run_symsh(const Desc& d)
         typedef HermEigsBase<Op, IdentityBOp> Base;
         Eigen::SparseMatrix<T> As = A.sparseView();
         In in(As);
+        // presig: the operator object has been used before with ANOTHER shift (an earlier solver, or the user's own set_shift)
+        if (d.has("presig"))
+            in.set_shift((T) d.f("presig"));
         Op op(in, &st);
         Runner<Solver, Base, T> r(d, cx, st, sink);
         r.lanczos = true;
@@ -125,6 +128,8 @@ void run_symsh(const Desc& d)
         typedef SymEigsShiftSolver<Op> Solver;
         typedef HermEigsBase<Op, IdentityBOp> Base;
         In in(A);
+        if (d.has("presig"))
+            in.set_shift((T) d.f("presig"));
         Op op(in, &st);
         Runner<Solver, Base, T> r(d, cx, st, sink);
         r.lanczos = true;
